@@ -35,7 +35,7 @@ import (
 // evaluated on every case and the few cases that miss it are skipped and counted.
 
 type c2fCase struct {
-	Class string    `json:"class"` // feature satellite csg
+	Class string    `json:"class"` // feature satellite far-satellite csg
 	Tree  *gen.Node `json:"tree"`
 	Delta float64   `json:"delta"`
 	K     float64   `json:"k"`     // big = K*Delta
@@ -101,7 +101,7 @@ func genC2F(t *rapid.T) c2fCase {
 		c.Extra = gen.F(t, 0, 1.5, "extra")
 	}
 	big := c.K * c.Delta
-	c.Class = rapid.SampledFrom([]string{"feature", "feature", "satellite", "satellite", "csg"}).Draw(t, "class")
+	c.Class = rapid.SampledFrom([]string{"feature", "feature", "satellite", "far-satellite", "far-satellite", "csg"}).Draw(t, "class")
 	switch c.Class {
 	case "feature":
 		c.Tree = featureSolid3(t, big, rmax)
@@ -111,6 +111,23 @@ func genC2F(t *rapid.T) c2fCase {
 		ctr := gen.Vec3(t, 1, "c0")
 		rho := big * gen.F(t, 0.12, 0.5, "rho")
 		gap := big * gen.F(t, 0.05, 2.6+c.Extra, "gap")
+		d := gen.Dir3(t, "dir").Unit()
+		c.Tree = &gen.Node{Op: "join", Kids: []*gen.Node{
+			{Op: "prim", Shape: &gen.Shape3{Kind: "sphere", A: ctr, R: R}},
+			{Op: "prim", Shape: &gen.Shape3{Kind: "sphere", A: ctr.Add(d.Scale(R + gap + rho)), R: rho}},
+		}}
+	case "far-satellite":
+		// the class that measures the AMOUNT of dilation: a satellite the coarse lattice cannot see, at a distance from
+		// the large ball between half of the built-in dilation (sqrt(3) coarse spacings) and what (P) still allows
+		// (about 2.4), meshed with a fine lattice several times finer than the coarse one, so that the leaf blocks of
+		// the filtered mesher (4-5 fine cells across) are small against the dilation and a block holding the satellite
+		// is reached by the dilated coarse mesh only because of the second half of the dilation
+		c.K = gen.F(t, 3, 5, "kfar")
+		big = c.K * c.Delta
+		R := big * gen.F(t, 2.5, 3.5, "R")
+		ctr := gen.Vec3(t, 1, "c0")
+		rho := big * gen.F(t, 0.12, 0.3, "rho")
+		gap := big * (c.Extra + gen.F(t, 1.75, 2.45, "gapfar"))
 		d := gen.Dir3(t, "dir").Unit()
 		c.Tree = &gen.Node{Op: "join", Kids: []*gen.Node{
 			{Op: "prim", Shape: &gen.Shape3{Kind: "sphere", A: ctr, R: R}},
@@ -313,8 +330,10 @@ func checkC2F(c c2fCase, o *kit.Obs) error {
 		return nil
 	}
 	// how tight was it?  (classification only: would (P) still hold with half the built-in dilation?)
+	tight := false
 	if _, b := preconditionP3(fine, coarse, (extra+math.Sqrt(3)*big)*(1-1e-9)); b != nil {
 		o.Label("needs-more-than-half-the-dilation")
+		tight = true
 	}
 	var ref []kit.Tri
 	withProcs(1, func() { ref = canonTris(m3.Tris(model3d.MarchingCubesSearch(solid, c.Delta, c.Iters))) })
@@ -343,6 +362,8 @@ func checkC2F(c c2fCase, o *kit.Obs) error {
 	}
 	if active == 0 {
 		o.Label("empty-mesh")
+	} else if tight {
+		o.NonTrivial() // the case depends on the amount of dilation, whether or not anything was skipped
 	}
 	return nil
 }
@@ -403,7 +424,7 @@ func genC2F2(t *rapid.T) c2f2Case {
 		c.Extra = gen.F(t, 0, 1.5, "extra")
 	}
 	big := c.K * c.Delta
-	c.Class = rapid.SampledFrom([]string{"feature", "feature", "satellite", "satellite", "csg"}).Draw(t, "class")
+	c.Class = rapid.SampledFrom([]string{"feature", "feature", "satellite", "far-satellite", "far-satellite", "csg"}).Draw(t, "class")
 	switch c.Class {
 	case "feature":
 		c.Tree = featureSolid2(t, big, rmax)
@@ -412,6 +433,19 @@ func genC2F2(t *rapid.T) c2f2Case {
 		ctr := gen.Vec2(t, 1, "c0")
 		rho := big * gen.F(t, 0.12, 0.5, "rho")
 		gap := big * gen.F(t, 0.05, 2.6+c.Extra, "gap")
+		d := gen.Dir2(t, "dir").Unit()
+		c.Tree = &gen.Node2{Op: "join", Kids: []*gen.Node2{
+			{Op: "prim", Shape: &gen.Shape2{Kind: "circle", A: ctr, R: R}},
+			{Op: "prim", Shape: &gen.Shape2{Kind: "circle", A: ctr.Add(d.Scale(R + gap + rho)), R: rho}},
+		}}
+	case "far-satellite":
+		// see genC2F; the 2D leaf blocks are 8-11 fine cells across, hence the larger coarse factor
+		c.K = gen.F(t, 4, 8, "kfar")
+		big = c.K * c.Delta
+		R := big * gen.F(t, 2.5, 4, "R")
+		ctr := gen.Vec2(t, 1, "c0")
+		rho := big * gen.F(t, 0.1, 0.3, "rho")
+		gap := big * (c.Extra + gen.F(t, 1.75, 2.45, "gapfar"))
 		d := gen.Dir2(t, "dir").Unit()
 		c.Tree = &gen.Node2{Op: "join", Kids: []*gen.Node2{
 			{Op: "prim", Shape: &gen.Shape2{Kind: "circle", A: ctr, R: R}},
@@ -532,8 +566,10 @@ func checkC2F2(c c2f2Case, o *kit.Obs) error {
 		o.Skip("coarse-pass-misses-a-feature")
 		return nil
 	}
+	tight := false
 	if _, b := preconditionP2(fine, coarse, (extra+math.Sqrt(3)*big)*(1-1e-9)); b {
 		o.Label("needs-more-than-half-the-dilation")
+		tight = true
 	}
 	var ref []kit.Seg
 	withProcs(1, func() { ref = canonSegs(m3.Segs(model2d.MarchingSquaresSearch(solid, c.Delta, c.Iters))) })
@@ -569,6 +605,8 @@ func checkC2F2(c c2f2Case, o *kit.Obs) error {
 	}
 	if active == 0 {
 		o.Label("empty-mesh")
+	} else if tight {
+		o.NonTrivial() // the case depends on the amount of dilation, whether or not anything was skipped
 	}
 	return nil
 }
